@@ -24,7 +24,7 @@ var tamperKeys = []string{"Length", "Prev", "Size", "W", "Index", "N", "First", 
 	// further keys on the walked paths
 	"Root", "Pages", "Contents", "Resources", "Font", "XRefStm", "Extends", "Predictor", "Columns", "Subtype", "FontFile", "FontFile2", "FontFile3",
 	"DescendantFonts", "Encoding", "ToUnicode", "Widths", "FirstChar", "LastChar", "CIDToGIDMap", "FontDescriptor", "Outlines", "First", "Next", "Last",
-	"Names", "Limits", "Length1", "Length2", "Length3", "V", "R", "O", "U", "P", "CF", "StmF", "StrF", "ID", "Info", "MediaBox", "CharProcs", "Differences", "W2", "DW"}
+	"Names", "Limits", "Rows", "K", "Length1", "Length2", "Length3", "V", "R", "O", "U", "P", "CF", "StmF", "StrF", "ID", "Info", "MediaBox", "CharProcs", "Differences", "W2", "DW"}
 
 var tamperSet = func() map[string]bool {
 	m := map[string]bool{}
@@ -197,6 +197,31 @@ func (m *mutator) kidsArray(i int) (int, []int) {
 	return j, refs
 }
 
+// enclosingArray returns the index of the opening bracket of the innermost
+// array or dictionary around token i if that is an array, else -1.
+func (m *mutator) enclosingArray(i int) int {
+	ts := m.toks
+	depth := 0
+	for j := i - 1; j >= 0 && j > i-4000; j-- {
+		switch ts[j].Kind {
+		case syntax.TokArrayClose, syntax.TokDictClose:
+			depth++
+		case syntax.TokArrayOpen, syntax.TokDictOpen:
+			if depth == 0 {
+				if ts[j].Kind == syntax.TokArrayOpen {
+					return j
+				}
+				return -1
+			}
+			depth--
+		}
+		if kw(ts[j], "obj") {
+			return -1
+		}
+	}
+	return -1
+}
+
 // valueEnd returns the token index just after the value which starts at i.
 func (m *mutator) valueEnd(i int) int {
 	ts := m.toks
@@ -293,7 +318,8 @@ func (m *mutator) hostileValue(key string, tok int) (string, string) {
 		return a, "name:" + a
 	case "DecodeParms":
 		alts := []string{"<< /Predictor 12 /Columns 2147483647 >>", "<< /Predictor 15 /Columns 1 /Colors 1000000 /BitsPerComponent 16 >>", "<< /Predictor 2 /Columns 0 >>",
-			"[ null << /Predictor 12 >> ]", "<< /EarlyChange 7 >>", "<< /K -1 /Columns 1048576 /Rows 1048576 >>", "<< /Predictor 12 /Columns 4 >>"}
+			"[ null << /Predictor 12 >> ]", "<< /EarlyChange 7 >>", "<< /K -1 /Columns 1048576 /Rows 1048576 >>", "<< /Predictor 12 /Columns 4 >>",
+			"<< /K -1 /Columns 1048576 /Rows 4096 >>", "<< /K -1 /Columns 1048576 /Rows 65536 >>", "<< /K 0 /Columns 1048576 /Rows 65536 >>", "<< /K -1 /Columns 65536 /Rows 65536 >>"}
 		a := alts[m.pick("parms", len(alts))]
 		return a, "parms:" + a
 	case "Encrypt":
@@ -312,7 +338,7 @@ func (m *mutator) edit() bool {
 	if len(ts) == 0 {
 		return false
 	}
-	kind := []int{0, 0, 0, 1, 1, 1, 2, 2, 2, 2, 2, 2, 3, 4, 5, 6, 7, 8, 8, 9, 9, 10, 10, 11}[m.pick("edit", 24)]
+	kind := []int{0, 0, 0, 1, 1, 1, 2, 2, 2, 2, 2, 2, 3, 4, 5, 6, 7, 8, 8, 9, 9, 10, 10, 11, 12, 12}[m.pick("edit", 26)]
 	switch kind {
 	case 0: // integer operand -> hostile constant
 		var idx []int
@@ -478,6 +504,57 @@ func (m *mutator) edit() bool {
 			}
 		}
 		m.edits = append(m.edits, "byteflips")
+	case 12: // reference grammar: integers and R keywords around an existing reference
+		var idx []int
+		for i := 0; i+2 < len(ts); i++ {
+			if ts[i].Kind == syntax.TokInt && ts[i+1].Kind == syntax.TokInt && kw(ts[i+2], "R") {
+				idx = append(idx, i)
+			}
+		}
+		if len(idx) == 0 {
+			return false
+		}
+		// references inside arrays in two of three draws: arrays and
+		// dictionaries fold "a b R" by separate code
+		if m.pick("inarray", 3) != 0 {
+			var in []int
+			for _, i := range idx {
+				if m.enclosingArray(i) >= 0 {
+					in = append(in, i)
+				}
+			}
+			if len(in) > 0 {
+				idx = in
+			}
+		}
+		i := idx[m.pick("reftok", len(idx))]
+		a, b := string(m.data[ts[i].Pos:ts[i].End]), string(m.data[ts[i+1].Pos:ts[i+1].End])
+		n := strconv.Itoa(m.pick("extraint", 10))
+		variants := []struct{ name, text string }{
+			{"int-before", n + " " + a + " " + b + " R"},
+			{"R-R", a + " " + b + " R R"},
+			{"ref-n-R", a + " " + b + " R " + n + " R"},
+			{"a-b-c-R", a + " " + b + " " + n + " R"},
+			{"a-R", a + " R"},
+			{"int-before+n-R", n + " " + a + " " + b + " R " + n + " R"},
+			{"a-b-c-d-R-R", n + " " + n + " " + a + " " + b + " R R"},
+			{"bare-R", "R"},
+			{"R-ref", "R " + a + " " + b + " R"},
+			{"ref-ref-R", a + " " + b + " R " + a + " " + b + " R R"},
+		}
+		v := variants[m.pick("refvariant", len(variants)+1)%len(variants)]
+		if open := m.enclosingArray(i); open >= 0 && m.pick("afteropen", 6) == 0 {
+			// an R directly behind the opening bracket
+			m.replace(ts[open].End, ts[open].End, []byte(" R "))
+			m.edits = append(m.edits, "refgrammar R-after-[")
+			break
+		}
+		m.replace(ts[i].Pos, ts[i+2].End, []byte(v.text))
+		where := "dict"
+		if m.enclosingArray(i) >= 0 {
+			where = "array"
+		}
+		m.edits = append(m.edits, "refgrammar "+v.name+" in "+where)
 	case 10: // rows of the cross-reference stream: applied last, behind the repair (which would rewrite them)
 		x, ok := findLastXRefStream(m.data, ts, locate(ts))
 		if !ok || x == nil {
